@@ -1,0 +1,6 @@
+//go:build !verif
+
+package environment
+
+// verifCache is a hook for the verification harness (build tag `verif`).
+func verifCache(ev string, key string) {}
